@@ -425,7 +425,9 @@ def run_case(desc):
             out = io.StringIO()
             ms.dump(out, sign_openpgp=False, sort=True)
             classes.append('profile:ebuild')
-            if out.getvalue() != body:
+            # (blank lines aside: an empty Manifest is signed as '\n')
+            if [ln for ln in out.getvalue().split('\n') if ln] != [
+                    ln for ln in body.split('\n') if ln]:
                 return violation(
                     f'{what} with the sorting ebuild profile: the signed '
                     f'text {body!r} is not in sorted order '
